@@ -146,8 +146,9 @@ type vC12Case struct {
 	a, b  *vC12Group
 	rec   []vM
 	viol  string
-	pj    [][]int
-	stats map[string]int
+	pj      [][]int
+	stats   map[string]int
+	lastTbl string
 }
 
 func vC12NewCase(partsN map[int]int, stats map[string]int) *vC12Case {
@@ -181,6 +182,10 @@ func (c *vC12Case) step(op vM) int {
 	}
 	ta, ma := c.a.table()
 	tb, _ := c.b.table()
+	if res != 0 && c.lastTbl != "" && fmt.Sprint(ta, c.a.g.epoch) != c.lastTbl {
+		c.viol = fmt.Sprintf("%v was refused (code %d) and changed the group all the same: %s -> %v", op, res, c.lastTbl, fmt.Sprint(ta, c.a.g.epoch))
+	}
+	c.lastTbl = fmt.Sprint(ta, c.a.g.epoch)
 	c.rec = append(c.rec, vM{"op": "obs", "epoch": c.a.g.epoch, "members": ma, "tbl": ta})
 	if res != res2 || fmt.Sprint(ta) != fmt.Sprint(tb) {
 		c.viol = fmt.Sprintf("two groups that applied the same operations differ: %v vs %v", ta, tb)
@@ -243,7 +248,14 @@ func TestVerifC12(t *testing.T) {
 			case 1:
 				c.step(vM{"op": "leave", "c": 1 + r.intn(ncons), "e": e})
 			default:
-				c.step(vM{"op": "sdel", "s": 1 + r.intn(nstreams), "e": e})
+				sd := 1 + r.intn(nstreams)
+				if c.step(vM{"op": "sdel", "s": sd, "e": e}) == 0 && c.viol == "" && r.intn(2) == 0 {
+					// the stream is created again, with another number of partitions
+					n := int32([]int{1, 2, 3, 4, 5, 7}[r.intn(6)])
+					c.a.parts[vC12Stream(sd)], c.b.parts[vC12Stream(sd)] = n, n
+					c.rec = append(c.rec, vM{"op": "parts", "s": sd, "n": int(n)})
+					c.stats["stream-recreated"]++
+				}
 			}
 			if int(c.a.g.epoch) >= epoch {
 				epoch = int(c.a.g.epoch) + 1 + r.intn(2)
